@@ -201,6 +201,22 @@ def oracle_html(abbr, cfg, meta, r):
     return None
 
 
+def check_chunks(ctx, hsub):
+    from markup_util import impl_events
+    bad = 0
+    for abbr, cfg, meta in hsub:
+        r = impl_events(abbr, cfg)
+        why = oracle_html(abbr, cfg, meta, r)
+        if why:
+            bad += 1
+            if bad <= 3:
+                ctx.say('CHUNKS %r %s: %s' % (abbr, canon_cfg(cfg), why))
+                ctx.broken.append({'kind': 'correspondence', 'file': 'html-tag-chunks', 'input': abbr, 'config': canon_cfg(cfg), 'why': why})
+    c = ctx.cov['correspondence'].setdefault('html_tag_chunks_vs_denotation', {'cases': 0, 'disagreements': 0})
+    c['cases'] += len(hsub)
+    c['disagreements'] += bad
+
+
 HTML_OPTS = [{}, {'output.format': False}, {'output.selfClosingStyle': 'xhtml'}, {'output.selfClosingStyle': 'xml', 'output.indent': '  '},
              {'output.formatLeafNode': True, 'output.newline': '\r\n'}, {'output.inlineBreak': 1, 'output.baseIndent': '  '},
              {'output.formatSkip': ['section', 'p'], 'output.formatForce': ['em', 'span']}, {'output.inlineBreak': 0, 'output.indent': ''},
@@ -316,6 +332,29 @@ def has_multiline(stmt):
     return False
 
 
+def deep_stmt(rng, names, budget, depth=0):
+    """Like abbr_gen.rand_stmt but biased towards nesting: `>` most of the time, short climbs."""
+    stmt = []
+    i = 0
+    n = max(1, budget)
+    while i < n:
+        if depth < 3 and n - i >= 2 and rng.random() < 0.15:
+            k = rng.randint(1, min(4, n - i))
+            unit = g.Group(deep_stmt(rng, names, k, depth + 1), repeat=rng.choice([None, None, 2]))
+            i += k
+        else:
+            unit = g.El(name=rng.choice(names), repeat=rng.choice([None, None, None, None, 2, 3]))
+            i += 1
+        if i >= n:
+            op = ''
+        elif isinstance(unit, g.Group):
+            op = rng.choice(['+', '+', '^'])
+        else:
+            op = rng.choice(['>', '>', '>', '>', '>', '+', '+', '^', '^^'])
+        stmt.append((unit, op))
+    return stmt
+
+
 def load_corpus():
     d = os.path.join(VERIF, 'corpus', 'C15')
     out = []
@@ -395,11 +434,15 @@ def gen(ctx):
     n_rand = 2500 if ctx.tier == 'quick' else 60000
     for _ in range(n_rand):
         big = rng.random() < 0.2
-        st = g.rand_stmt(rng, names, rng.randint(1, 40 if big else 9), max_depth=4)
+        deep = rng.random() < 0.4
+        if deep:
+            st = deep_stmt(rng, names, rng.randint(2, 30 if big else 9))
+        else:
+            st = g.rand_stmt(rng, names, rng.randint(1, 40 if big else 9), max_depth=4)
         if g.total_copies(g.unroll(g.denote_stmt(st))) > 300:
             continue
         decorate_stmt(rng, st, rng.choice([0.3, 1.0, 1.0, 1.6]))
-        add(st, rng.choice(SYNTAXES), rng.choice(INDENTS), 'random-big' if big else 'random')
+        add(st, rng.choice(SYNTAXES), rng.choice(INDENTS), ('random-deep' if deep else 'random') + ('-big' if big else ''))
     return cases
 
 
@@ -436,8 +479,7 @@ RULE = ('abbreviations generated as an AST (elements with ids, classes, attribut
         'self-closing, nameless elements, groups, repeaters), rendered to text; exhaustive operator skeletons up to the stated size, '
         'every element shape x syntax as leaf/parent/child, random wide and deep statements; x haml/pug/slim x 8 indent strings. '
         'Oracle: output lines = lines denoted by the AST (indent^depth ++ head ++ value; multi-line text one line per text line one '
-        'level deeper with the syntax marks); tree read off the indentation = tree of the HTML output; tag chunks of the HTML formatter '
-        '(callback events) = open/close events of the denoted tree under 9 option sets. Non-trivial = at least two '
+        'level deeper with the syntax marks); tree read off the indentation = tree of the HTML output. Non-trivial = at least two '
         'lines; distinct by (abbreviation, syntax, indent). A second stream (text-only nodes, snippets, numbering, fields, all '
         'output options) is compared model vs implementation only.')
 
@@ -447,7 +489,7 @@ def attach_meta(ctx, cases):
     look = {(a, canon_cfg(c)): m for a, c, m in cases}
     for v in ctx.violations:
         rp = v.get('replay') or {}
-        if rp.get('component') in ('C15', 'C15html') and 'abbr' in rp:
+        if rp.get('component') == 'C15' and 'abbr' in rp:
             m = look.get((rp['abbr'], canon_cfg(rp['config'])))
             if m is not None:
                 rp['meta'] = m
@@ -465,12 +507,14 @@ def run(ctx):
     # callback events (offset, line, column of every push) on a subset
     sub = cases[:: max(1, len(cases) // (800 if ctx.tier == 'quick' else 8000))]
     run_cases(ctx, model, sub, 'C15ev', None, mode='events')
-    # HTML side of the last clause: tag chunks of the HTML formatter = open/close events of the denoted tree
-    # (oracle on the implementation's callback chunks) and chunk-exact model/implementation comparison
+    # HTML side of the last clause: chunk-exact model/implementation comparison under 9 option sets (ties
+    # HtmlEvents.v's chunk model to the code); the tag chunks are also compared with the denoted events, as a
+    # tie check only (how the output is cut into chunks is not part of the property)
     hsub = [(a, {'syntax': 'html', 'options': dict(HTML_OPTS[k % len(HTML_OPTS)])}, m)
             for k, (a, cf, m) in enumerate(cases[:: max(1, len(cases) // (1200 if ctx.tier == 'quick' else 12000))]) if 'events' in m]
-    run_cases(ctx, model, hsub, 'C15html', oracle_html, mode='events')
-    attach_meta(ctx, cases + hsub)
+    run_cases(ctx, model, hsub, 'C15html', None, mode='events')
+    check_chunks(ctx, hsub)
+    attach_meta(ctx, cases)
     tie = gen_tie(ctx)
     run_cases(ctx, model, tie, 'C15tie', None)
     shown = 0
@@ -485,19 +529,9 @@ def replay(ctx, obj):
     if 'abbr' not in rp:
         print('replay names a broken obligation, no input: %s' % str(rp)[:300])
         return 1
-    if rp.get('component') == 'C15html':
-        from markup_util import impl_events
-        r = impl_events(rp['abbr'], rp['config'])
-        meta = rp.get('meta')
-        if meta is None:
-            print('no recorded denotation for this input')
-            return 1
-        meta['events'] = [tuple(e) for e in meta['events']]
-        bad = oracle_html(rp['abbr'], rp['config'], meta, r)
-    else:
-        r = impl_expand(rp['abbr'], rp['config'])
-        meta = rp.get('meta') or {'tree': True}
-        bad = oracle(rp['abbr'], rp['config'], meta, r)
+    r = impl_expand(rp['abbr'], rp['config'])
+    meta = rp.get('meta') or {'tree': True}
+    bad = oracle(rp['abbr'], rp['config'], meta, r)
     print('expand(%r, %r) -> %r' % (rp['abbr'], rp['config'], r))
     print('property %s' % ('FAILS: ' + bad if bad else 'holds on this input'))
     return 1 if bad else 0
